@@ -18,7 +18,7 @@ void __asan_set_error_report_callback(void (*)(const char*));
 const char* __asan_default_options() {
 	return "halt_on_error=0:detect_leaks=0:allocator_may_return_null=1:max_allocation_size_mb=2048:"
 	       "quarantine_size_mb=16:malloc_context_size=6:detect_odr_violation=0:detect_stack_use_after_return=0:"
-	       "handle_abort=1:print_legend=0:print_full_thread_history=0";
+	       "handle_abort=1:print_legend=0:print_full_thread_history=0:suppress_equal_pcs=0"; // suppress_equal_pcs=0: report an error at the same PC again (every case is judged on its own)
 }
 }
 #else
